@@ -32,7 +32,8 @@ ROOT_METHODS = (("QtLogger::Formatter", "format"), ("QtLogger::Filter", "filter"
 ROOT_NAMES = ("PatternFormatter::PatternFormatter", "PatternFormatterPrivate::PatternFormatterPrivate", "PatternFormatterPrivate::parsePattern",
               "CategoryFilter::CategoryFilter", "CategoryFilter::parseRules", "RegExpFilter::RegExpFilter")
 RULE_OF = {"access": "C14-O4", "term": "C14-O5", "alloc": "C14-O1", "loopbd": "C14-O1"}
-MIN_BY_KIND = {"access": 20, "term": 18, "alloc": 4}
+MIN_BY_KIND = {"access": 20, "term": 18}
+MIN_ALLOC = 4
 # regular expressions whose pattern is user text by contract (the API takes a regular expression)
 REGEX_BY_CONTRACT = {"RegExpFilter::RegExpFilter": "RegExpFilter's argument is a regular expression by contract (the property quantifies over a fixed menu of expressions)"}
 
@@ -56,6 +57,8 @@ def run(ck):
     ck.rule("C14-O2", "a constant array indexed by the message type has more entries than the largest QtMsgType enumerator")
     ck.rule("C14-O3", "a regular expression compiled from rule text is assembled from constants and QRegularExpression::escape()d text only (post-escape edits: constant-for-constant replace)")
     ck.rule("C14-O4", "every unchecked element access (at, operator[], first/last/front/back, take/remove First/Last, array subscript) is proved to satisfy 0 <= index < size on all paths and loop iterations")
+    ck.rule("C14-O6", "no signed integer is accumulated multiplicatively (x = x * k + d, x *= k, x <<= k) in a loop over input text without a bound test on x before the step: "
+                      "a long digit run overflows it (undefined behaviour; in practice the value wraps and a clamp applied afterwards is useless)")
     ck.rule("C14-O5", "every loop has a ranking function: on each path back to the loop head a bounded integer strictly progresses or the scanned container strictly shrinks (lexicographic pairs allowed); "
                       "range-for / iterator loops run over a container the body does not modify")
     roots = roots_of(F)
@@ -80,8 +83,16 @@ def run(ck):
         ck.require(counts.get(kind, 0) >= mn, "only %d %s obligations were generated, %d were confirmed by hand" % (counts.get(kind, 0), kind, mn))
     regex_rule(ck, env)
     rec = recursion_rule(ck, env)
+    acc = accumulation_rule(ck, env)
+    if counts.get("alloc", 0) < MIN_ALLOC:
+        if acc:
+            # numbers are parsed by hand: the taint source of C14-O1 (the toInt family) is gone, so O1 has nothing to say
+            ck.ob("C14-O1", "(analysed functions)", None, "only %d allocation-size obligations: integers are parsed by a hand-written loop (%s), which the parsed-integer taint does not follow" % (counts.get("alloc", 0), ", ".join(acc)))
+        else:
+            ck.require(False, "only %d alloc obligations were generated, %d were confirmed by hand" % (counts.get("alloc", 0), MIN_ALLOC))
     ck.extra_coverage = {
         "recursive_functions_in_scope": rec,
+        "multiplicative_accumulations_in_scope": acc,
         "analysed_functions": len(env.scope),
         "writers_added_for_field_invariants": env.scope_added,
         "lambdas_analysed_in_call_context": env.skipped_inlined,
@@ -219,4 +230,68 @@ def recursion_rule(ck, env):
     if not found:
         ck.ob("C14-O5", "(call graph of the analysed functions)", True, "no analysed function can reach itself: %d functions, %d call edges, no cycle (with virtual dispatch resolved to all overriders)"
               % (len(graph), sum(len(v) for v in graph.values())), key="recursion|none")
+    return found
+
+
+SIGNED_INT = ("int", "long", "long long", "short", "qint32", "qint64", "qlonglong", "qsizetype", "qptrdiff", "ssize_t", "ptrdiff_t", "signed char", "qint16", "qint8")
+
+
+def accumulation_rule(ck, env):
+    """C14-O6: hand-written number parsing. The toInt family reports overflow through `ok`; a digit loop does not."""
+    F = ck.facts
+    scope = set(env.scope)
+    found = []
+    for f in sorted((x for x in F.fns.values() if x.sig in scope and x.body is not None), key=lambda x: (x.file, x.line, x.sig)):
+        for n in f.find(lambda n: n.get("k") == "binop" and n.get("op") in ("=", "*=", "<<=")):
+            lhs = skip_copies(n.get("lhs"))
+            if not (lhs.get("k") == "ref" and lhs.get("dk") in ("local", "param")):
+                continue
+            t = (lhs.get("type") or "").replace("const ", "").strip()
+            if t not in SIGNED_INT:
+                continue
+            d = lhs.get("decl")
+            if n["op"] == "=":
+                mult = [x for x in walk(n.get("rhs")) if x.get("k") == "binop" and x.get("op") in ("*", "<<") and
+                        ((is_ref_to(x.get("lhs"), d) and (const_int(x.get("rhs")) or 0) >= 2 - (x.get("op") == "<<")) or (x.get("op") == "*" and is_ref_to(x.get("rhs"), d) and (const_int(x.get("lhs")) or 0) >= 2))]
+                if not mult:
+                    continue
+                k = const_int(mult[0].get("rhs")) if is_ref_to(mult[0].get("lhs"), d) else const_int(mult[0].get("lhs"))
+                if mult[0].get("op") == "<<":
+                    k = 1 << k
+            else:
+                k = const_int(n.get("rhs"))
+                if k is None or (n["op"] == "*=" and k < 2):
+                    continue
+                if n["op"] == "<<=":
+                    k = 1 << k
+            loops = enclosing_loops(f, n)
+            if not loops:
+                continue
+            loop = loops[0]
+            found.append("%s in %s" % (lhs.get("name"), f.name.split("::")[-1]))
+            # a bound test on the variable inside the loop, evaluated before the step on every iteration
+            g = Graph(f)
+            ns = g.site_of(n)
+            guards = []
+            for c in f.find(lambda c: c.get("k") == "binop" and c.get("op") in ("<", ">", "<=", ">=") and any(a.get("id") == loop["id"] for a in f.ancestors(c))):
+                if any(is_ref_to(x, d) for x in (c.get("lhs"), c.get("rhs")) if isinstance(x, dict)) or any(x.get("k") == "ref" and x.get("decl") == d for x in walk(c)):
+                    other = c.get("rhs") if any(y.get("k") == "ref" and y.get("decl") == d for y in walk(c.get("lhs"))) else c.get("lhs")
+                    bound = eval_int(other, lambda z: None)
+                    cs_ = g.site_of(c)
+                    if cs_ is not None and ns is not None and g.dominated(ns, {cs_}):
+                        guards.append((c, bound))
+            tname = f.name.split("::")[-1]
+            if not guards:
+                ck.ob("C14-O6", sitestr(f, n), False, "%s is multiplied by %s on every iteration of the loop at line %d with no test of its size before the step: %d digits are enough to overflow the %s "
+                      "(the old toInt() reported that through `ok`; a clamp applied after the loop sees the wrapped value)" % (lhs.get("name"), k, loop.get("l", 0), 10 if k == 10 else 32, t),
+                      key="accumulate|%s|%s" % (tname, lhs.get("name")))
+            else:
+                c, bound = guards[0]
+                lim = (1 << 31) - 1 if t in ("int", "qint32", "long") or True else 0
+                ok = bound is not None and bound * k + k <= lim
+                ck.ob("C14-O6", sitestr(f, n), True if ok else None, "%s is tested against %s before every multiplication by %s" % (lhs.get("name"), bound, k) if ok else
+                      "%s is accumulated multiplicatively; the bound test %s is not a constant small enough to exclude overflow" % (lhs.get("name"), describe(c)), key="accumulate|%s|%s" % (tname, lhs.get("name")))
+    if not found:
+        ck.ob("C14-O6", "(analysed functions)", True, "no multiplicative accumulation of a signed integer inside a loop in the %d analysed functions (numbers are parsed with the toInt family, which reports overflow)" % len(scope),
+              key="accumulate|none")
     return found
